@@ -108,6 +108,8 @@ C = [
   [("pkg/core/statesync/module.go", "\ts.checkSyncIsCompleted()\n\treturn nil\n}", "\tif s.syncStage == headersSynced|blocksSynced|mptSynced {\n\t\ts.syncStage = inactive\n\t}\n\treturn nil\n}")]),
  ("C02-header-gc-ignores-header-height", "C02", "gc-keeps-startup-page", "the header-hash collector is bounded by the traceability index only (the repaired defect)",
   [("pkg/core/blockchain.go", "\ttill = min(till, (int32(bc.HeaderHeight()+1)/headerBatchCount-2)*headerBatchCount)\n", "")]),
+ ("C07-policy-estimate-without-state-root", "C07", "context-construction", "ApplyPolicyToTxSet estimates the block size with a header without state root (the repaired defect)",
+  [("pkg/core/blockchain.go", "Script: defaultWitness.(transaction.Witness), StateRootEnabled: bc.config.StateRootInHeader}}", "Script: defaultWitness.(transaction.Witness)}}")]),
 ]
 
 root = "/verif/controls"
